@@ -685,6 +685,33 @@ fn extract_tuple_ids(type_id: usize, program: &Program) -> Vec<usize> {
     }
 }
 
+/// Collect the identifiers a pattern binds, with multiplicity (every alternative of an
+/// alternation binds the same set, so the first one stands for all).
+fn collect_bound_identifiers(pattern: &ast::Match, out: &mut Vec<String>) {
+    match pattern {
+        ast::Match::Identifier(name, _) | ast::Match::As(_, name, _) => out.push(name.clone()),
+        ast::Match::Tuple(tuple) => {
+            for field in &tuple.fields {
+                collect_bound_identifiers(&field.pattern, out);
+            }
+        }
+        ast::Match::Partial(partial) => {
+            for field in &partial.fields {
+                match &field.pattern {
+                    Some(pattern) => collect_bound_identifiers(pattern, out),
+                    None => out.push(field.name.clone()),
+                }
+            }
+        }
+        ast::Match::Or(alternatives) => {
+            if let Some(first) = alternatives.first() {
+                collect_bound_identifiers(first, out);
+            }
+        }
+        _ => {}
+    }
+}
+
 /// Analyze a tuple bind pattern to find a single type-constraining field.
 pub fn analyze_tuple_pattern_for_complement(
     pattern: &ast::Match,
@@ -695,6 +722,16 @@ pub fn analyze_tuple_pattern_for_complement(
         ast::Match::Tuple(t) => t,
         _ => return None,
     };
+
+    // A repeated identifier (`=[Wrap[a], a]`) requires two positions to hold equal values, so the
+    // pattern can fail although every field has the type it narrows to. Its failure says nothing
+    // about the constrained field, hence no field-specific complement.
+    let mut bound = Vec::new();
+    collect_bound_identifiers(pattern, &mut bound);
+    bound.sort();
+    if bound.windows(2).any(|pair| pair[0] == pair[1]) {
+        return None;
+    }
 
     // Field-specific complement narrowing describes "this tuple, with that field excluded". It
     // only makes sense when the value is known to be exactly one tuple type that the pattern is
